@@ -10,6 +10,8 @@
      itertools.islice(l, n)       firstn; ValueError for n < 0
      min(a, b)                    Z.min on ints
      operator.itemgetter(i)       a closure value; calling it indexes
+     list * int, l.index(x)       repetition; position of the first element == x (ValueError if none)
+     out[lo:hi] = vals            ("stmt:setslice", on a local list) Python's slice assignment with clipped bounds
    Closures are data: calling opaque callable k on arguments args yields `partial_clo k args` (an object that remembers
    which function was called with what); applying it ([apply_key]) interprets the TRANSLATED inner functions of
    nullitemgetter (passed in as parameters so that this file does not depend on generated code).
@@ -92,6 +94,12 @@ Fixpoint group_runs (l : list (pv * pv)) : list (pv * list pv) :=      (* (key, 
 (* the compiled query as far as the translated statements read it: query.table, query.distinct, query.limit *)
 Definition query_obj (table distinct limit : pv) : pv := PTuple [table; distinct; limit].
 
+Fixpoint find_index (x : pv) (l : list pv) : option nat :=
+  match l with
+  | [] => None
+  | y :: t => if pv_eqb y x then Some 0%nat else option_map S (find_index x t)
+  end.
+
 (* ------------------------------------------------------------------ first-order primitives *)
 Definition prims_base (name : string) (args : list pv) : res pv :=
   if String.eqb name "builtins.set" then match args with [] => Ok (PList []) | _ => Stuck end
@@ -114,6 +122,30 @@ Definition prims_base (name : string) (args : list pv) : res pv :=
     end
   else if String.eqb name "operator.itemgetter" then
     match args with [PV (VInt i)] => Ok (itemgetter_clo (PInt i)) | _ => Stuck end
+  else if String.eqb name "binop:mul" then                              (* list * int *)
+    match args with [PList l; PV (VInt n)] => Ok (PList (concat (repeat l (Z.to_nat n)))) | _ => Stuck end
+  else if String.eqb name "call:index" then                             (* l.index(x): first i with l[i] == x *)
+    match args with
+    | [v; x] =>
+        match seq_items v with
+        | Some l => match find_index x l with Some i => Ok (PInt (Z.of_nat i)) | None => Exc ValueError end
+        | None => Stuck
+        end
+    | _ => Stuck
+    end
+  else if String.eqb name "stmt:setslice" then                          (* out[lo:hi] = vals, on a list *)
+    match args with
+    | [PList out; PV (VInt lo); PV (VInt hi); v] =>
+        match seq_items v with
+        | Some vals =>
+            let len := Z.of_nat (length out) in
+            let a := clipz len lo in
+            let b := Z.max a (clipz len hi) in
+            Ok (PList (firstn (Z.to_nat a) out ++ vals ++ skipn (Z.to_nat b) out))
+        | None => Stuck
+        end
+    | _ => Stuck
+    end
   else if String.eqb name "attr:table" then match args with [PTuple [t; _; _]] => Ok t | _ => Stuck end
   else if String.eqb name "attr:distinct" then match args with [PTuple [_; d; _]] => Ok d | _ => Stuck end
   else if String.eqb name "attr:limit" then match args with [PTuple [_; _; n]] => Ok n | _ => Stuck end
@@ -137,6 +169,8 @@ Definition groupby_prim (l : list pv) (clo : pv) : res pv :=
 Definition prims_hi (name : string) (args : list pv) : res pv :=
   if String.eqb name "method:sort:key,reverse" then
     match args with [PList rows; clo; PV (VBool d)] => sort_prim rows clo d | _ => Stuck end
+  else if String.eqb name "method:sort:key" then
+    match args with [PList rows; clo] => sort_prim rows clo false | _ => Stuck end
   else if String.eqb name "itertools.groupby:key" then
     match args with
     | [v; clo] => match seq_items v with Some l => groupby_prim l clo | None => Stuck end
